@@ -337,7 +337,64 @@ def run_objects(case):
     return res
 
 
-KINDS = {"typed": run_typed, "objects": run_objects, "ladder": run_ladder, "block": run_block, "one": run_one, "posterior": run_posterior}
+_MEMCHILD = r"""
+import sys, json, resource
+sys.path.insert(0, %(verif)r)
+from mc import env
+import numpy as np
+from tempest.state_manager import StateManager
+T, n = %(T)d, %(n)d
+st = StateManager(1)
+rng_l = np.cos(np.arange(T * n) * 0.7368) * 3.0 - 1.0
+betas = np.linspace(0.0, 1.0, T)
+for t in range(T):
+    st.update_current({"logl": rng_l[t * n:(t + 1) * n].copy(), "beta": float(betas[t]), "logz": float(-0.01 * t)})
+    st.commit_current_to_history()
+# reference in row blocks (never builds the N x T table)
+N = T * n
+lw_ref = np.empty(N)
+for a in range(0, N, 4096):
+    l = rng_l[a:a + 4096]
+    b = l[:, None] * betas[None, :] - (-0.01 * np.arange(T))[None, :] + np.log(n / N)
+    lw_ref[a:a + 4096] = l * 1.0 - np.logaddexp.reduce(b, axis=1)
+lz_ref = float(np.logaddexp.reduce(lw_ref) - np.log(N))
+vm = [int(x.split()[1]) for x in open('/proc/self/status') if x.startswith('VmSize')][0] * 1024
+resource.setrlimit(resource.RLIMIT_AS, (vm + %(slack)d, vm + %(slack)d))
+try:
+    lw, lz = st.compute_logw_and_logz(1.0, normalize=False)
+    print(json.dumps({"outcome": "value", "dlogw": float(np.max(np.abs(np.asarray(lw) - lw_ref))), "dlogz": float(abs(float(lz) - lz_ref))}))
+except MemoryError:
+    print(json.dumps({"outcome": "MemoryError"}))
+"""
+
+
+def run_memlimit(case):
+    """Environment fault: the process cannot allocate the samples-by-iterations table (address-space limit a little above the current footprint).
+    Raising MemoryError is an acceptable answer; returning weights or an evidence that differ from the formula is not."""
+    import json
+    import os
+    import subprocess
+    import sys
+
+    res = Res()
+    code = _MEMCHILD % {"verif": os.path.dirname(os.path.dirname(os.path.abspath(__file__))), "T": case["T"], "n": case["n"], "slack": case["slack_mib"] << 20}
+    r = subprocess.run([sys.executable, "-W", "ignore", "-c", code], capture_output=True, text=True, timeout=900)
+    res.evals += 1
+    try:
+        out = json.loads(r.stdout.strip().splitlines()[-1])
+    except Exception:
+        res.bump("memlimit_child_unusable")
+        res.extra["memlimit_child_stderr"] = (r.stderr or "")[-200:]
+        return res
+    res.bump("memlimit:" + out["outcome"])
+    res.outcome(("memlimit", case["T"], case["n"], case["slack_mib"], out["outcome"]), nontrivial=True)
+    if out["outcome"] == "value" and (out["dlogw"] > 1e-8 or out["dlogz"] > 1e-8):
+        res.violate("memlimit:wrong-values", f"history of {case['T']} iterations x {case['n']} particles under an address-space limit {case['slack_mib']} MiB above the footprint: log-weights differ from the formula by "
+                    f"{out['dlogw']:.3g}, logZ by {out['dlogz']:.3g} (a MemoryError would have been an acceptable answer)", dict(case))
+    return res
+
+
+KINDS = {"memlimit": run_memlimit, "typed": run_typed, "objects": run_objects, "ladder": run_ladder, "block": run_block, "one": run_one, "posterior": run_posterior}
 
 
 def plan(ctx):
@@ -374,6 +431,7 @@ def plan(ctx):
     ctx.explore("typed-histories", [{"kind": "typed", "sizes": sz, "betas": bt} for sz, bt in shapes])
     ctx.explore("several-live-objects", [{"kind": "objects", "sizes": sz, "betas": bt, "vary_beta": vb} for sz, bt in shapes for vb in (False, True)])
     ctx.bounds.update({"typed_array_spellings": list(ARRAY_SPELL), "typed_scalar_spellings": list(SCALAR_SPELL), "live_objects": 3, "query_sequences_len": [2, 3]})
+    ctx.explore("memory-limited-process", [{"kind": "memlimit", "T": 150, "n": 2000, "slack_mib": sl} for sl in (200, 120)], parallel=False)
     rungs = [(4, 64), (16, 256), (64, 1024), (160, 820)] + ([(160, 1700), (400, 700)] if th else [])
     ctx.bounds.update({"size_ladder_NxT": [T * (T * n + T) for T, n in rungs]})
     ctx.explore("size-ladder", [{"kind": "ladder", "T": T, "n_t": n} for T, n in rungs], parallel=False)
